@@ -893,7 +893,7 @@ func writeEvidence(prop string, cfg propCfg, tier string, seed uint64, a *agg, s
 			"builds":                     kinds,
 			"statement_level_preemption": stmt,
 			"components_real":            []string{"spine.DeviceLocal and everything below it (entities, features, function data, subscription/binding/heartbeat managers, senders, event bus), model package, instrumented from the current /repo tree"},
-			"components_stub":            []string{"SHIP transport (simulated network implementing ShipConnectionDataWriterInterface / driving ShipConnectionDataReaderInterface)", "scripted peers (harness code emitting datagrams built with the repo's model types); there is no second real node"},
+			"components_stub":            []string{"SHIP transport (simulated network implementing ShipConnectionDataWriterInterface / driving ShipConnectionDataReaderInterface)", peersStub(a.variants)},
 			"new_violation_signatures":   newViol,
 			"known_findings_hit":         knownHit,
 			"race_report_signatures":     raceSigs,
@@ -921,22 +921,38 @@ func writeEvidence(prop string, cfg propCfg, tier string, seed uint64, a *agg, s
 
 // expectedProbes lists probes that a healthy batch must hit (reported in evidence when zero).
 var expectedProbes = map[string][]string{
-	"C01": {"c01-request-checked", "c01-protected-write-bound-true", "c01-protected-write-bound-false", "c01-request-from-second-feature-of-same-type-and-role"},
-	"C02": {"c02-update-compared", "c02-fn-networkManagementEntityDescriptionListData", "c02-fn-measurementSeriesListData", "c02-selector-names-list-valued-element", "c02-shape-delete-elements+partial-selector"},
+	"C01": {"c01-request-checked", "c01-protected-write-bound-true", "c01-protected-write-bound-false", "c01-request-from-second-feature-of-same-type-and-role", "c01-dst-device-omitted", "c01-dst-device-other", "mirror-responses-counted"},
+	"C02": {"c02-update-compared", "c02-fn-networkManagementEntityDescriptionListData", "c02-fn-measurementSeriesListData", "c02-selector-names-list-valued-element", "c02-shape-delete-elements+partial-selector", "c02-delete-selector-names-part-of-identifier"},
 	"C03": {"write-authorised", "write-unauthorised", "write-notified-subscriber", "write-source-device-omitted", "peer-announced-known-entity-again", "write-function-element-names-function-of-other-writability"},
-	"C04": {"c04-write-accepted", "c04-write-rejected", "c04-twin-checked", "c04-protected-element-present", "c04-shape-delete-selector+partial-selector", "c04-stored-element-without-identifier"},
-	"C05": {"c05-mutated-message-handled", "c05-node-management-registry-call", "c05-messages-before-discovery", "c05-probe-read-answered", "c05-function-element-names-another-function", "gen-structured-selector-member"},
-	"C06": {"c06-add-and-remove-in-one-notification", "c06-remove-unknown-entity", "c06-repeated-announcement"},
-	"C07": {"goaf-calls-overlapped", "c07-discovery-reply-checked", "c07-read-overlapped-tree-change", "c07-subscription-before-discovery-reply", "c07-other-peer-unsubscribed", "c07-subscription-repeated"},
-	"C08": {"fanout-notify-to-subscriber", "reg-server-device-omitted", "duplicate-subscribe-refused", "entity-removal-names-unknown-entity-first", "c08r-payload-compared"},
-	"C09": {"bind-granted", "two-bind-requests-for-one-feature-overlapped", "reg-server-device-omitted", "reg-requested-type-differs"},
-	"C10": {"teardown-with-state", "approval-verdict-given", "approval-left-pending"},
+	"C04": {"c04-write-accepted", "c04-write-rejected", "c04-twin-checked", "c04-protected-element-present", "c04-shape-delete-selector+partial-selector", "c04-stored-element-without-identifier", "c04c-race-checked", "c04c-write-overlapped-local-update"},
+	"C05": {"c05-mutated-message-handled", "c05-node-management-registry-call", "c05-messages-before-discovery", "c05-probe-read-answered", "c05-function-element-names-another-function", "gen-structured-selector-member", "c05-discovery-read-during-traffic"},
+	"C06": {"c06-add-and-remove-in-one-notification", "c06-remove-unknown-entity", "c06-repeated-announcement", "mirror-tree-compared", "mirror-use-cases-compared", "mirror-link-restored", "mirror-tree-change"},
+	"C07": {"goaf-calls-overlapped", "c07-discovery-reply-checked", "c07-read-overlapped-tree-change", "c07-subscription-before-discovery-reply", "c07-other-peer-unsubscribed", "c07-subscription-repeated", "c07-description-changed"},
+	"C08": {"fanout-notify-to-subscriber", "reg-server-device-omitted", "duplicate-subscribe-refused", "entity-removal-names-unknown-entity-first", "c08r-payload-compared", "mirror-data-compared", "mirror-write", "c08-left-before-discovery", "reg-delete-names-other-device"},
+	"C09": {"bind-granted", "two-bind-requests-for-one-feature-overlapped", "reg-server-device-omitted", "reg-requested-type-differs", "reg-delete-names-other-device"},
+	"C10": {"teardown-with-state", "approval-verdict-given", "approval-left-pending", "mirror-teardown-observed", "c10-address-less-peer-removed-with-pending-write"},
 	"C11": {"c11-snapshot-verified", "c11-non-persisting-update-checked", "c11-reader-pass", "c11h-snapshot-verified"},
-	"C12": {"c12-expect-applied", "c12-expect-error", "verdict-overlapped-timeout", "several-writes-on-one-feature", "c12r-second-write-partly-approved", "c12r-first-write-partly-approved"},
-	"C13": {"c13-overlapping-sends", "c13w-request-from-callback", "c13w-request-withheld", "more-than-64-unanswered-requests", "more-than-100-notifications", "c13-response-references-a-notification"},
-	"C14": {"c14-callback-fired-once", "c14-registration-overlapped-arrival", "c14-key-shared-between-peers", "c14-bystander-removed"},
-	"C15": {"c15-delivery-checked", "c15-subscription-change-overlapped-publish", "c15-unsubscribe-inside-handler"},
-	"C16": {"c16-refresh-observed", "c16-running-span-checked", "c16-stopped-at-end-checked"},
-	"C17": {"c17-api-calls", "c17-approval-callback", "c17-hot-write"},
+	"C12": {"c12-expect-applied", "c12-expect-error", "verdict-overlapped-timeout", "several-writes-on-one-feature", "c12r-second-write-partly-approved", "c12r-first-write-partly-approved", "c12d-later-round-decided", "c12d-later-round-refused"},
+	"C13": {"c13-overlapping-sends", "c13w-request-from-callback", "c13w-request-withheld", "more-than-64-unanswered-requests", "more-than-100-notifications", "c13-response-references-a-notification", "c13-many-answered-requests-first"},
+	"C14": {"c14-callback-fired-once", "c14-registration-overlapped-arrival", "c14-key-shared-between-peers", "c14-bystander-removed", "mirror-callback-fired-once", "mirror-answer-overtook-registration"},
+	"C15": {"c15-delivery-checked", "c15-subscription-change-overlapped-publish", "c15-unsubscribe-inside-handler", "c15-last-peer-removed", "c15-core-handler-unsubscribed-inside-handler"},
+	"C16": {"c16-refresh-observed", "c16-running-span-checked", "c16-stopped-at-end-checked", "c16-announced-timeout-below-configured"},
+	"C17": {"c17-api-calls", "c17-approval-callback", "c17-hot-write", "c17-description-changed", "c17-discovery-read"},
 	"C20": {"c20-concurrent-entities", "c20-has-checked", "c20-peer-read-checked"},
+}
+
+// peersStub says which peers of the runs were stubs: in the mirror-* variants both nodes are real.
+func peersStub(variants map[string]int) string {
+	mirror, other := 0, 0
+	for v, n := range variants {
+		if strings.HasPrefix(v, "mirror-") {
+			mirror += n
+		} else {
+			other += n
+		}
+	}
+	if mirror == 0 {
+		return "scripted peers (harness code emitting datagrams built with the repo's model types); no second real node in the variants of this run"
+	}
+	return fmt.Sprintf("scripted peers (harness code emitting datagrams built with the repo's model types) in %d runs; in %d runs (variants mirror-*) the peer is a second real spine.DeviceLocal and nothing but the transport is a stub", other, mirror)
 }
